@@ -70,7 +70,10 @@ DetAgg(a, grp, c) == CASE a.f = "count*" -> NumV(IF a.distinct THEN Len(Distinct
 DetMu(q, grp, c) == [v \in {q.aggs[j].as : j \in {i \in 1..Len(q.aggs) : ~IsErr(DetAgg(q.aggs[i], grp, c))}} |->
                         DetAgg(q.aggs[CHOOSE j \in 1..Len(q.aggs) : q.aggs[j].as = v], grp, c)]
 (* HAVING(<aggregate> op n): the aggregate is evaluated on the group itself (SELECT aliases are not visible to HAVING) *)
+KeyMu(q, grp) == LET kv == {q.groupby[j].v : j \in {jj \in 1..Len(q.groupby) : q.groupby[jj].e = "var" /\ q.groupby[jj].v \in DOMAIN grp[1]}}
+                 IN [v \in kv |-> grp[1][v]]
 Kept(q, grp, c) == IF ~Has(q, "having") THEN TRUE
+                   ELSE IF Has(q.having, "e") THEN Holds(q.having.e, KeyMu(q, grp), c)      \* HAVING over the group's keys, no aggregate in it
                    ELSE LET x == DetAgg(q.having.agg, grp, c) IN
                         IF IsErr(x) THEN FALSE
                         ELSE CASE q.having.op = ">" -> x.v > q.having.n [] q.having.op = ">=" -> x.v >= q.having.n
